@@ -317,6 +317,68 @@ def run(repo: Repo, rep: Report, tier: str) -> None:
         rep.ok("C13-R9", "_resolve_signal_identity: the label is a candidate only when no type is known", "the label is never a candidate", rsi.loc())
 
 
+    # ---------------- R10 --------------------------------------------------------------
+    rep.rule("C13-R10", "a bundle literal holds each channel once: in the analyzer's bundle-literal inference a member name enters the member set only on the arm where it was "
+             "not yet seen, the test is the bare membership in the table of seen names (no further condition that lets a repeated name through), and the other arm reports "
+             "the duplicate — two members on one channel are summed by the wire, so `{x, x}` would silently become 2x")
+    bl = repo.func("SemanticAnalyzer._infer_bundle_literal_type")
+    pm10 = parents_map(bl.node)
+    n10 = 0
+    for add in calls_in(bl.node, "add"):
+        if not (isinstance(add.func, ast.Attribute) and add.args and isinstance(add.args[0], ast.Name)):
+            continue
+        member = add.args[0].id
+        st10 = _stmt(pm10, add)
+        arm = pm10.get(st10)
+        n10 += 1
+        key10 = f"_infer_bundle_literal_type: member insert #{n10} is the not-seen arm of a bare membership test"
+        if not isinstance(arm, ast.If):
+            rep.bad("C13-R10", key10, "the insert is not under a membership test at all", bl.loc(add))
+            continue
+        t10 = arm.test
+        neg = False
+        if isinstance(t10, ast.UnaryOp) and isinstance(t10.op, ast.Not):
+            t10, neg = t10.operand, True
+        bare = isinstance(t10, ast.Compare) and len(t10.ops) == 1 and isinstance(t10.ops[0], (ast.In, ast.NotIn)) and isinstance(t10.left, ast.Name) and t10.left.id == member
+        if not bare:
+            rep.bad("C13-R10", key10, f"guard `{norm(arm.test)[:90]}` is not the bare test `<name> in <seen>`: a repeated member passes when the extra condition fails", bl.loc(arm))
+            continue
+        seen_in = isinstance(t10.ops[0], ast.In) != neg  # True: the If body is the seen arm
+        in_body = any(st10 is x or any(st10 is y for y in ast.walk(x)) for x in arm.body)
+        other = arm.orelse if in_body else arm.body
+        table = norm(t10.comparators[0])
+        stored = any(isinstance(x, ast.Assign) and isinstance(x.targets[0], ast.Subscript) and norm(x.targets[0].value) == table and norm(x.targets[0].slice) == member
+                     for x in (arm.body if in_body else arm.orelse)) or norm(add.func.value) == table
+        err = any(call_name(c) == "error" for x in other for c in ast.walk(x) if isinstance(c, ast.Call))
+        ok10 = (in_body != seen_in) and stored and err
+        rep.check(ok10, "C13-R10", key10, "inserted when unseen, recorded in the table that is tested, the seen arm reports an error" if ok10 else
+                  ("inserted on the arm where the name was already seen" if in_body == seen_in else "the name is not recorded in the tested table" if not stored else "the seen arm reports no error"), bl.loc(arm))
+    rep.floor("C13-R10", "member inserts in the bundle-literal inference", n10, 2)
+
+    # ---------------- R11 --------------------------------------------------------------
+    rep.rule("C13-R11", "the pool hands out each entry once: the allocator returns the pool entry at the cursor it then advances by one — an entry read at any other index is "
+             "handed out again when the cursor reaches it, so two untyped values share a channel")
+    al = repo.func("SignalAnalyzer._allocate_factorio_virtual_signal")
+    cal = __import__("fv.rules.util", fromlist=["canon"]).canon(al)
+    incs11 = [n for n in walk_local(al.node) if isinstance(n, ast.AugAssign) and isinstance(n.op, ast.Add) and isinstance(n.target, ast.Attribute)
+              and isinstance(n.value, ast.Constant) and n.value.value == 1]
+    if len(incs11) != 1:
+        raise AnalysisError(f"C13-R11: expected one cursor advance in {al.short}, found {len(incs11)}")
+    cursor = norm(incs11[0].target)
+    n11 = 0
+    for r11 in [n for n in walk_local(al.node) if isinstance(n, ast.Return) and n.value is not None]:
+        for alt in cal.alts(r11.value, r11):
+            if alt.startswith(("'", '"')):
+                continue  # the fixed fallback when the pool is empty
+            n11 += 1
+            m11 = re.fullmatch(r"(self\.\w+)\[(.+)\]", alt)
+            ok11 = bool(m11) and m11.group(2) == cursor
+            rep.check(ok11, "C13-R11", f"{al.short}: returns the entry at the cursor", alt if ok11 else f"returns `{alt[:80]}`, not `<pool>[{cursor}]`", al.loc(r11))
+        if not all(a.startswith(("'", '"')) for a in cal.alts(r11.value, r11)):
+            okd = CFG_dom(al, incs11[0], r11)
+            rep.check(okd, "C13-R11", f"{al.short}: the cursor advances before every return of a pool entry", "advance dominates the return" if okd else "a return of a pool entry that does not advance the cursor", al.loc(r11))
+    rep.floor("C13-R11", "pool-entry returns of the allocator", n11, 1)
+
 
 def CFG_dom(f, a, b) -> bool:
     from ..cfg import CFG
